@@ -73,9 +73,16 @@ NWORKERS = max(2, min(8, (os.cpu_count() or 4) // 2))
 
 
 # ---------------------------------------------------------------- programs
-def node(i, mr=0, rf=0, base=1, script=(), dflt=OK, body=()):
-    return {"id": i, "mr": mr, "rf": rf, "base": base, "script": [list(s) for s in script],
-            "dflt": list(dflt), "body": [list(b) for b in body]}
+def node(i, mr=0, rf=0, base=1, script=(), dflt=OK, body=(), extra=None, shift=None, decl="t"):
+    """mr = the max_retries the task DECLARES (decl 't': task-level option, explicit zero included; decl 'a': option
+    absent at task level, mr is the app-level value of the case); extra / shift: further keyword arguments of the
+    call (per-call parameter / common_args of its group)"""
+    return {"id": i, "mr": mr, "rf": rf, "decl": decl, "base": base, "extra": extra, "shift": shift,
+            "script": [list(s) for s in script], "dflt": list(dflt), "body": [list(b) for b in body]}
+
+
+def app_mr(case):
+    return (case.get("app") or {}).get("max_retries", 0)
 
 
 def walk(n, launched_by=None, out=None):
@@ -102,7 +109,7 @@ def needed(case):
     acc = set()
 
     def rec(n, fl):
-        acc.add((fl, n["mr"], n["rf"]))
+        acc.add((fl, n["mr"], n["rf"], n.get("decl", "t")))
         for st in n["body"]:
             if st[0] in ("call", "fire"):
                 rec(st[1], "p")
@@ -153,7 +160,7 @@ def coq_act(a):
 
 
 def coq_prog(n):
-    hdr = (f"(mkH {n['id']} {n['mr']} {RF_COQ[n['rf']]} {n['base']} "
+    hdr = (f"(mkH {n['id']} {n['mr']} {RF_COQ[n['rf']]} {n['base'] + (n.get('extra') or 0) + (n.get('shift') or 0)} "
            f"[{'; '.join(coq_act(a) for a in n['script'])}] {coq_act(n['dflt'])})")
     return f"(Node {hdr} {coq_stmts(n['body'])})"
 
@@ -187,13 +194,20 @@ def coq_case(case, dropped):
 
 
 # ---------------------------------------------------------------- generator
-def gen_node(rng, ids, depth, pool, p_ok, lazy_ok, conf=None):
+def gen_conf(rng, depth, env):
+    """(max_retries, retry_for, where max_retries is declared).  With an app-level max_retries in force a third of
+    the tasks leave the option to the app; the others declare it themselves - explicit zeros included."""
+    mr = rng.choice([0, 0, 1, 1, 2, 3] if depth == 0 else [0, 0, 0, 1, 1, 2])
+    rf = rng.choice([0, 0, 1, 2])
+    if rng.random() < (0.33 if env.get("max_retries") else 0.1):
+        return env.get("max_retries", 0), rf, "a"
+    return mr, rf, "t"
+
+
+def gen_node(rng, ids, depth, pool, p_ok, lazy_ok, conf=None, env=None):
+    env = env or {}
     i = next(ids)
-    if conf is None:
-        mr = rng.choice([0, 0, 1, 1, 2, 3] if depth == 0 else [0, 0, 0, 1, 1, 2])
-        rf = rng.choice([0, 0, 1, 2])
-    else:
-        mr, rf = conf
+    mr, rf, decl = gen_conf(rng, depth, env) if conf is None else conf
 
     def act():
         r = rng.random()
@@ -209,51 +223,87 @@ def gen_node(rng, ids, depth, pool, p_ok, lazy_ok, conf=None):
             op = rng.choices(["call", "direct", "group", "dpar", "fire"],
                              weights=[4, 2, 2, 1, 0.6 if lazy_ok else 0])[0]
             if op in ("call", "direct", "fire"):
-                body.append([op, gen_node(rng, ids, depth + 1, pool, p_ok, lazy_ok)])
+                body.append([op, gen_node(rng, ids, depth + 1, pool, p_ok, lazy_ok, env=env)])
+                if rng.random() < 0.25:
+                    body[-1][1]["extra"] = rng.randint(1, 4)
                 if rng.random() < 0.12:
                     # the same call once more (same task, same arguments => same node id): a second invocation
                     body.append([op, clone(body[-1][1])])
             else:
-                body.append([op, gen_group(rng, ids, depth + 1, pool, lazy_ok)])
-    return node(i, mr, rf, rng.randint(0, 5), script, dflt, body)
+                body.append([op] + gen_group(rng, ids, depth + 1, pool, lazy_ok, env))
+    return node(i, mr, rf, rng.randint(0, 5), script, dflt, body, decl=decl)
 
 
 def clone(n):
     return json.loads(json.dumps(n))
 
 
-def gen_group(rng, ids, depth, pool, lazy_ok):
-    # one task (= one configuration) per group; one exception for the whole group subtree, so that the
-    # exception the parent sees does not depend on which failing member is final first
-    conf = (rng.choice([0, 0, 1, 2]), rng.choice([0, 0, 1, 2]))
+def gen_group(rng, ids, depth, pool, lazy_ok, env=None):
+    """-> [members, shift].  One task (= one configuration) per group; one exception for the whole group subtree,
+    so that the exception the parent sees does not depend on which failing member is final first.  Sizes 1..6 (+
+    repeats) straddle the small parallel_batch_size values the cases configure; a third of the groups pass
+    common_args (shift) next to per-call dicts whose key sets differ (some members carry `extra`)."""
+    env = env or {}
+    conf = gen_conf(rng, 1, env)
     gpool = [rng.choice(pool)]
-    n = rng.choice([2, 2, 3])
+    n = rng.choice([1, 2, 2, 3, 3, 4, 5, 6] if depth >= 1 and not env.get("small") else [2, 2, 3])
     fail_last_only = not lazy_ok or rng.random() < 0.7
     ms = []
     for j in range(n):
         p_ok = 0.6 if (j == n - 1 or not fail_last_only) else 1.0
-        ms.append(gen_node(rng, ids, depth, gpool, p_ok, lazy_ok and not fail_last_only, conf))
+        ms.append(gen_node(rng, ids, depth, gpool, p_ok, lazy_ok and not fail_last_only, conf, env))
     # the same argument set more than once in the parallelized list (equal node id = equal spec = equal call_id).
     # Guard-biased groups repeat a member that cannot fail, before the last one (the guard stays true).
+    shift = rng.randint(1, 4) if rng.random() < 0.35 else None
+    rich = shift is not None or rng.random() < 0.3
+    for m in ms:
+        m["shift"] = shift
+        m["extra"] = rng.randint(1, 5) if rich and rng.random() < 0.5 else None
     r = rng.random()
-    for _ in range(0 if r < 0.6 else (1 if r < 0.9 else 2)):
+    for _ in range(0 if r < 0.6 or len(ms) < 2 else (1 if r < 0.9 else 2)):
         if fail_last_only:
             src, at = rng.randrange(len(ms) - 1), rng.randrange(len(ms))
         else:
             src, at = rng.randrange(len(ms)), rng.randrange(len(ms) + 1)
         ms.insert(at, clone(ms[src]))
-    return ms
+    return [ms, shift]
 
 
 POOL = [(0, 0)] * 4 + [(0, 2)] + [(k, a) for k in (1, 2, 3) for a in (0, 1, 2, 3)]
 
 
+def gen_env(rng):
+    """app-level configuration and the task-level parallel_batch_size of a case: half of the cases run with the
+    defaults (max_retries 0, batches of 100); the others set max_retries 1..3 at app level and / or a batch size
+    0 (batching off) .. 3 at app level, at task level, or both (the task level wins, explicit 0 included)."""
+    app: dict = {}
+    tbatch = None
+    if rng.random() < 0.5:
+        if rng.random() < 0.6:
+            app["max_retries"] = rng.choice([1, 2, 2, 3])
+        r = rng.random()
+        if r < 0.35:
+            tbatch = rng.choice([0, 1, 2, 2, 3])
+        elif r < 0.6:
+            app["parallel_batch_size"] = rng.choice([0, 1, 2, 2, 3])
+        elif r < 0.75:
+            app["parallel_batch_size"] = rng.choice([1, 2, 3])
+            tbatch = rng.choice([0, 0, 2, 3])
+    return app, tbatch
+
+
 def gen_case(rng, lazy_ok):
     ids = itertools.count(1)
+    app, tbatch = gen_env(rng)
     top = rng.choices(["call", "direct", "group", "dpar"], weights=[6, 2, 1, 1])[0]
+    case = {"top": top, "app": app, "tbatch": tbatch}
     if top in ("call", "direct"):
-        return {"top": top, "progs": [gen_node(rng, ids, 0, POOL, 0.6, lazy_ok)]}
-    return {"top": top, "progs": gen_group(rng, ids, 1, POOL, lazy_ok)}
+        case["progs"] = [gen_node(rng, ids, 0, POOL, 0.6, lazy_ok, env=app)]
+        if rng.random() < 0.2:
+            case["progs"][0]["extra"] = rng.randint(1, 4)
+    else:
+        case["progs"], case["shift"] = gen_group(rng, ids, 1, POOL, lazy_ok, app)
+    return case
 
 
 def corpus_cases():
@@ -291,6 +341,59 @@ def corpus_cases():
         ("repeat:group-after-failure",
          {"top": "call", "progs": [node(1, body=[["group", [clone(a), clone(a), node(5, dflt=[1, 1, 7]), clone(a)]]])]}),
     ]
+    # group sizes around / beyond a small parallel_batch_size (set at task level, at app level, or both; 0 = batching
+    # off): whole batches, a trailing partial batch, one call more than a batch, fewer calls than a batch
+    def leaves(n, first=2, **kw):
+        return [node(first + j, base=j + 1, **kw) for j in range(n)]
+    for n, tb, ab in [(7, 3, None), (5, 2, None), (4, 2, None), (3, 1, None), (3, 2, None), (2, 3, None), (5, None, 2),
+                      (4, None, 3), (5, 0, 2), (3, 0, None), (6, 4, 1), (5, None, 0)]:
+        env = {"tbatch": tb, "app": ({} if ab is None else {"parallel_batch_size": ab})}
+        nm = f"{n}-task{tb}-app{ab}"
+        cs.append((f"batch:group-top:{nm}", dict(env, top="group", progs=leaves(n))))
+        if n in (7, 5, 3):
+            cs.append((f"batch:group-nested:{nm}", dict(env, top="call", progs=[node(1, body=[["group", leaves(n)]])])))
+            cs.append((f"batch:dpar-top:{nm}", dict(env, top="dpar", progs=leaves(n))))
+    cs += [
+        ("batch:repeat-5-by-2", {"top": "group", "tbatch": 2, "progs": [clone(a), clone(b), clone(a), clone(b), clone(a)]}),
+        ("batch:retries-5-by-2", {"top": "call", "tbatch": 2, "progs": [node(1, body=[["group", [
+            node(2 + j, mr=1, rf=2, base=j, script=[[1, 2, 1]]) for j in range(5)]]])]}),
+        ("batch:dpar-nested-5-by-3", {"top": "direct", "tbatch": 3, "progs": [node(1, body=[["dpar", leaves(5)]])]}),
+    ]
+    # common_args next to per-call dicts with DIFFERENT key sets (some members pass `extra`, all get `shift`):
+    # every call receives exactly its own parameters over the common ones
+    def hetero(shift, extras, first=2):
+        return [node(first + j, base=j + 1, extra=x, shift=shift) for j, x in enumerate(extras)]
+    for nm, env in [("default", {}), ("nobatch", {"tbatch": 0}), ("batch2", {"tbatch": 2}), ("appbatch0", {"app": {"parallel_batch_size": 0}})]:
+        cs += [
+            (f"common:group-top:{nm}", dict(env, top="group", shift=3, progs=hetero(3, [5, None, 2, None]))),
+            (f"common:group-nested:{nm}", dict(env, top="call", progs=[node(1, body=[["group", hetero(2, [None, 4, None]), 2]])])),
+            (f"common:dpar-top:{nm}", dict(env, top="dpar", shift=1, progs=hetero(1, [7, None, None, 3, None]))),
+            (f"common:dpar-nested:{nm}", dict(env, top="call", progs=[node(1, body=[["dpar", hetero(4, [1, None]), 4]])])),
+            (f"percall:group-top:{nm}", dict(env, top="group", progs=hetero(None, [5, None, 2, None, None, 6]))),
+        ]
+    cs += [
+        ("common:repeat", {"top": "group", "shift": 2, "progs": [node(2, extra=3, shift=2), node(3, shift=2), node(2, extra=3, shift=2), node(3, shift=2)]}),
+        ("percall:calls", {"top": "call", "progs": [node(1, extra=2, body=[["call", node(2, extra=5)], ["call", node(3)], ["direct", node(4, extra=1)]])]}),
+    ]
+    # where max_retries is declared: app level vs task level (explicit zero included), plain / direct / group /
+    # direct-with-parallel_func tasks, bodies that keep raising a retriable exception or succeed on a later attempt
+    raising = [1, 0, 0]
+    for amr in (1, 2, 3):
+        for tmr, decl in [(0, "t"), (amr, "a"), (amr, "t"), (1 if amr != 1 else 2, "t")]:
+            for top in ("call", "direct", "group", "dpar"):
+                leaf = node(1 if top in ("call", "direct") else 2, mr=tmr, decl=decl, dflt=raising)
+                cs.append((f"opt:app{amr}:{'task' if decl == 't' else 'absent'}{tmr}:{top}:always",
+                           {"top": top, "app": {"max_retries": amr}, "progs": [leaf]}))
+        cs += [
+            (f"opt:app{amr}:task0:nested", {"top": "call", "app": {"max_retries": amr}, "progs": [
+                node(1, mr=amr, decl="a", body=[["direct", node(2, mr=0, dflt=raising)]])]}),
+            (f"opt:app{amr}:task0:nested-call", {"top": "direct", "app": {"max_retries": amr}, "progs": [
+                node(1, mr=0, body=[["call", node(2, mr=0, rf=1, dflt=[1, 1, 2])]])]}),
+            (f"opt:app{amr}:absent:ok-late", {"top": "direct", "app": {"max_retries": amr}, "progs": [
+                node(1, mr=amr, decl="a", script=[raising] * amr)]}),
+            (f"opt:app{amr}:task0:batch0", {"top": "dpar", "app": {"max_retries": amr, "parallel_batch_size": 2}, "tbatch": 0,
+                                           "progs": [node(2 + j, base=j) for j in range(3)]}),
+        ]
     j = 0
     for mr in range(4):
         for rf in range(3):
@@ -345,7 +448,7 @@ def run_impl(mode, case, scratch, slots=1, tag="x", timeout=40.0, inject=None):
     app = world.make_app("mem" if sync else mode, scratch, app_id=f"c19_{mode}_{slots}_{tag}",
                          dev_mode_force_sync_tasks=sync, runner_cls="ThreadRunner",
                          runner_loop_sleep_time_sec=0.002, invocation_wait_results_sleep_time_sec=0.002,
-                         min_threads=slots, max_threads=slots)
+                         min_threads=slots, max_threads=slots, **(case.get("app") or {}))
     # Pynenc creates its components lazily with an unlocked check-then-create: a first use from the runner
     # thread and the client thread at the same moment can build two in-memory orchestrators / data stores
     # (seen as KeyError on an id the other instance holds).  Not C19's subject: build them here, up front.
@@ -354,7 +457,7 @@ def run_impl(mode, case, scratch, slots=1, tag="x", timeout=40.0, inject=None):
     _ = app.orchestrator.blocking_control
     reg = T.Registry()
     T.REG = reg
-    T.bind(app, reg, needed(case))
+    effective = T.bind(app, reg, needed(case), case.get("tbatch"))
     if inject == "delay-increment" and not sync:
         orig_incr = app.orchestrator.increment_invocation_retries
 
@@ -376,19 +479,21 @@ def run_impl(mode, case, scratch, slots=1, tag="x", timeout=40.0, inject=None):
 
     def client():
         try:
+            kw = {"spec": p0} if p0.get("extra") is None else {"spec": p0, "extra": p0["extra"]}
             if top == "call":
-                inv = reg.plain[(p0["mr"], p0["rf"])](spec=p0)
+                inv = reg.plain[T.key_of(p0)](**kw)
                 box["inv"] = inv
                 v = inv.result
             elif top == "direct":
-                v = reg.direct[(p0["mr"], p0["rf"])](spec=p0)
+                v = reg.direct[T.key_of(p0)](**kw)
             elif top == "group":
-                task = reg.plain[(p0["mr"], p0["rf"])]
-                g = task.parallelize([T.spell(task, j, m) for j, m in enumerate(progs)])
+                task = reg.plain[T.key_of(p0)]
+                params, common = T.group_params(task, progs, case.get("shift"))
+                g = task.parallelize(params, common) if common else task.parallelize(params)
                 reg.launched.extend(g.invocations)
                 v = sum(g.results)
             else:
-                v = reg.dpar[(p0["mr"], p0["rf"])](spec={"par": progs})
+                v = reg.dpar[T.key_of(p0)](spec={"par": progs, "shift": case.get("shift")})
             box["out"] = ["val", v] if type(v) is int else ["nonvalue", type(v).__name__]
         except Exception as ex:  # noqa: BLE001 - the observation
             box["out"] = ["exc", type(ex).__name__, list(ex.args)]
@@ -400,7 +505,8 @@ def run_impl(mode, case, scratch, slots=1, tag="x", timeout=40.0, inject=None):
     cth = threading.Thread(target=client, daemon=True)
     cth.start()
     cth.join(timeout)
-    obs: dict = {"mode": mode, "slots": slots, "out": box.get("out", ["hang"]), "top_retries": None, "retries": {}}
+    obs: dict = {"mode": mode, "slots": slots, "out": box.get("out", ["hang"]), "top_retries": None, "retries": {},
+                 "effective_options": effective}
     if "trace" in box:
         obs["trace"] = box["trace"]
     ids: list = []
@@ -500,11 +606,41 @@ def counts_of(obs):
 
 
 # ---------------------------------------------------------------- oracle (implementation observations only)
+def option_drift(obs):
+    """tasks whose Task.conf reports another max_retries than the one DECLARED for them (task-level option, or
+    the app-level value where the task leaves it out) - a diagnosis attached to accounting verdicts"""
+    import re
+    out = []
+    for name, (emr, _) in sorted((obs.get("effective_options") or {}).items()):
+        m = re.match(r"c19_([pdg])_m(\d)_r(\d)(_a)?$", name)
+        if m and int(m.group(2)) != emr:
+            kind = {"p": "task", "d": "direct_task", "g": "direct_task with parallel_func"}[m.group(1)]
+            where = "the app-level configuration (option absent on the task)" if m.group(4) else f"the option max_retries={m.group(2)} of the {kind}"
+            out.append(f"{where} declares max_retries={m.group(2)} but Task.conf.max_retries is {emr}")
+    return out
+
+
+def args_check(obs):
+    """every body execution received exactly the keyword arguments its call passed (per-call parameters over the
+    group's common_args) - read from the log alone"""
+    bad = [e for e in obs["log"] if e.get("args") != e.get("declared")]
+    if not bad:
+        return []
+    e = bad[0]
+    return [(f"call-args:{obs['mode']}",
+             f"{obs['mode']}: node {e['node']} was called with extra={e['declared'][0]}, shift={e['declared'][1]} (0 = not passed) "
+             f"but its body received extra={e['args'][0]}, shift={e['args'][1]} ({len(bad)} execution(s) with foreign arguments: "
+             f"parameters of another call of the same parallelized list / common_args)")]
+
+
 def accounting(case, obs):
-    """retry contract of every invocation seen in the log: executions 1..k; every execution before the last
-    ended with a retriable exception; k <= max_retries+1; a last execution ending with a retriable exception
-    means k = max_retries+1; final num_retries = k-1."""
+    """retry contract of every invocation seen in the log, against the max_retries / retry_for the task DECLARES
+    (task-level option incl. explicit zero, else the app-level value): executions 1..k; every execution before
+    the last ended with a retriable exception; k <= max_retries+1; a last execution ending with a retriable
+    exception means k = max_retries+1; final num_retries = k-1."""
     nodes = case_nodes(case)
+    drift = option_drift(obs)
+    drift_txt = ("; " + "; ".join(drift[:2])) if drift else ""
     by_inv: dict = {}
     for e in obs["log"]:
         by_inv.setdefault(e["inv"], []).append(e)
@@ -515,7 +651,8 @@ def accounting(case, obs):
         n = nodes[es[0]["node"]][0]
         retr = {"RetryError"} | RF_NAMES[n["rf"]]
         k = len(es)
-        where = f"node {n['id']} (max_retries={n['mr']}, retry_for={sorted(RF_NAMES[n['rf']])})"
+        where = (f"node {n['id']} (max_retries={n['mr']} declared {'on the task' if n.get('decl', 't') == 't' else 'at app level only'}"
+                 + (f", app-level max_retries={app_mr(case)}" if app_mr(case) else "") + f", retry_for={sorted(RF_NAMES[n['rf']])})")
         if [e["attempt"] for e in es] != list(range(1, k + 1)):
             bad.append(("attempts", f"{where}: execution numbers {[e['attempt'] for e in es]}"))
             continue
@@ -526,9 +663,9 @@ def accounting(case, obs):
         if any(x != "retriable" for x in ends[:-1]):
             bad.append(("rerun-after-end", f"{where}: executed again after an execution that ended {ends[:-1]}"))
         if k > n["mr"] + 1:
-            bad.append(("too-many", f"{where}: body executed {k} times, more than max_retries+1"))
+            bad.append(("too-many", f"{where}: body executed {k} times, more than max_retries+1{drift_txt}"))
         if ends[-1] == "retriable" and k < n["mr"] + 1:
-            bad.append(("too-few", f"{where}: gave up after {k} executions although max_retries+1 = {n['mr'] + 1}"))
+            bad.append(("too-few", f"{where}: gave up after {k} executions although max_retries+1 = {n['mr'] + 1}{drift_txt}"))
         fin = obs["retries"].get(inv)
         if fin is not None and fin != k - 1:
             bad.append(("num-retries", f"{where}: num_retries = {fin} after {k} executions"))
@@ -659,6 +796,7 @@ def dist_verdicts(case, m, s_obs, d_obs):
     found = [(k, w, {}) for k, w in judge(case, s_obs, d_obs)]
     bad, stale = accounting(case, d_obs)
     found += [(f"retry-accounting:{mode}:{k}", f"{mode}: {w}", {}) for k, w in bad]
+    found += [(k, w, {}) for k, w in args_check(d_obs)]
     got = (canon_out(d_obs["out"]), sorted(e["node"] for e in d_obs["log"]),
            d_obs["top_retries"] if case["top"] == "call" and d_obs["top_retries"] is not None else 0)
     want = (m["dist"][0], m["dist"][1], m["dist"][2] if case["top"] == "call" else 0)
@@ -787,7 +925,9 @@ def main(ctx: Ctx) -> int:
             rp = {"case": c, "name": name}
             # sync run: accounting + model
             for key, what in accounting(c, s_obs)[0]:
-                ctx.violation(f"retry-accounting:sync:{key}", f"sync mode: {what}", dict(rp, mode="sync", slots=1))
+                ctx.violation(f"retry-accounting:sync:{key}", f"[{name}] sync mode: {what}", dict(rp, mode="sync", slots=1))
+            for key, what in args_check(s_obs):
+                ctx.violation(key, f"[{name}] {what}", dict(rp, mode="sync", slots=1))
             got = (canon_out(s_obs["out"]), sorted(e["node"] for e in s_obs["log"]),
                    s_obs["top_retries"] if c["top"] == "call" and s_obs["top_retries"] is not None else 0)
             want = (m["sync"][0], m["sync"][1], m["sync"][2] if c["top"] == "call" else 0)
@@ -905,7 +1045,7 @@ def replay(ctx: Ctx, path: str) -> int:
         print("case:", json.dumps(case))
         print("sync  :", s_obs["out"], "executions", dict(counts_of(s_obs)), "num_retries", s_obs["top_retries"])
         rc = 0
-        for key, what in accounting(case, s_obs)[0]:
+        for key, what in accounting(case, s_obs)[0] + args_check(s_obs):
             print("  sync accounting:", key, what)
             rc = 1
         mode = rp.get("mode", "mem")
